@@ -231,7 +231,7 @@ impl GenHeader {
     }
 }
 
-fn digits(rng: &mut Rng, n: usize) -> String {
+pub fn digits(rng: &mut Rng, n: usize) -> String {
     (0..n).map(|_| (b'0' + rng.below(10) as u8) as char).collect()
 }
 
@@ -249,7 +249,7 @@ pub fn gen_header(rng: &mut Rng, nloc: usize, calllen: usize) -> GenHeader {
         (0..3).map(|_| *rng.pick(ALPHA) as char).collect()
     };
     let locs = (0..nloc)
-        .map(|_| if rng.chance(1, 10) { "000000".to_owned() } else { digits(rng, 6) })
+        .map(|_| if rng.chance(1, 10) || (nloc == 1 && rng.chance(1, 3)) { "000000".to_owned() } else { digits(rng, 6) })
         .collect();
     let purge = if rng.chance(1, 2) {
         format!("{:02}{:02}", rng.below(100), *rng.pick(&[0u64, 15, 30, 45]))
@@ -261,7 +261,15 @@ pub fn gen_header(rng: &mut Rng, nloc: usize, calllen: usize) -> GenHeader {
     } else {
         digits(rng, 7)
     };
-    let call = if rng.chance(1, 2) && calllen == 8 {
+    let call = if rng.chance(1, 8) && calllen >= 3 {
+        // callsigns around the Environment Canada marker "EC/": at the start, inside, at the end, near misses
+        let base: &str = *rng.pick(&["EC/GC/CA", "KEC/NWS ", " EC/GC/C", "WXEC/NWS", "NWS/EC/ ", "EC/", "ec/GC/CA", "EC", "E/C/GC/A", "XEC/"]);
+        let mut c: String = base.chars().take(calllen.max(3)).collect();
+        while c.len() < calllen.min(8) {
+            c.push(*rng.pick(UPPER) as char);
+        }
+        c
+    } else if rng.chance(1, 2) && calllen == 8 {
         let mut c: String = (0..4).map(|_| *rng.pick(UPPER) as char).collect();
         c.push_str(*rng.pick(&["/NWS", "/FM ", "/AM ", "/TV "]));
         c
